@@ -139,14 +139,19 @@ def opcodeWithSuffixes (opc : Txt) (sufs : List Txt) : Txt :=
 
 def Instr.ows (i : Instr) : Txt := opcodeWithSuffixes i.opcode i.suffixes
 
-def toksText (ts : List Tok) : Txt := ("|".intercalate (ts.map Tok.render)).toList
+def tokTxt : Tok → Txt
+  | .name n => n.toList
+  | .num v => (toString v).toList
 
-def symText (sym : Txt) (static : Bool) : Txt := if static then sym ++ "<>".toList else sym
+/-- `strings.Join(parts, "|")` of `Attribute.Asm` (the text of `Attr.asm`). -/
+def toksText (ts : List Tok) : Txt := joinWith ['|'] (ts.map tokTxt)
+
+def symText (sym : Txt) (static : Bool) : Txt := if static then sym ++ ['<', '>'] else sym
 
 /-- `operand.NewDataAddr(sym, off).Asm()`. -/
 def dataAddr (sym : Txt) (static : Bool) (off : Int) : Txt :=
   let a := symText sym static
-  (if a ≠ [] then a ++ decPlus off else if off ≠ 0 then dec off else []) ++ "(SB)".toList
+  (if a ≠ [] then a ++ decPlus off else if off ≠ 0 then dec off else []) ++ ['(', 'S', 'B', ')']
 
 /-- `textsize`: `$frame` and `-args` when the argument size is positive. -/
 def textSize (frame args : Int) : Txt :=
@@ -156,26 +161,26 @@ def textSize (frame args : Int) : Txt :=
 def textRest (clause : Option (List Tok)) (frame args : Int) : Txt :=
   (match clause with
    | none => []
-   | some ts => ", ".toList ++ toksText ts) ++ ", ".toList ++ textSize frame args
+   | some ts => [',', ' '] ++ toksText ts) ++ [',', ' '] ++ textSize frame args
 
 def pragmaText (dir : Txt) (args : List Txt) : Txt :=
-  "//go:".toList ++ dir ++ args.flatMap (fun a => ' ' :: a)
+  ['/', '/', 'g', 'o', ':'] ++ dir ++ args.flatMap (fun a => ' ' :: a)
 
 /-- One line of output, without its terminating newline. -/
 def renderLine : SLine → Txt
   | .blank => []
   | .comment t => commentText t
   | .raw t => t
-  | .incl p => "#include \"".toList ++ p ++ ['"']
-  | .text n c f a => "TEXT ·".toList ++ n ++ "(SB)".toList ++ textRest c f a
+  | .incl p => ['#', 'i', 'n', 'c', 'l', 'u', 'd', 'e', ' ', '"'] ++ p ++ ['"']
+  | .text n c f a => ['T', 'E', 'X', 'T', ' ', '·'] ++ n ++ ['(', 'S', 'B', ')'] ++ textRest c f a
   | .instr o s ops w =>
     if ops.isEmpty then '\t' :: opcodeWithSuffixes o s
-    else '\t' :: padRight (opcodeWithSuffixes o s) (w + 1) ++ joinWith ", ".toList ops
+    else '\t' :: padRight (opcodeWithSuffixes o s) (w + 1) ++ joinWith [',', ' '] ops
   | .label l => l ++ [':']
-  | .icomment t => "\t// ".toList ++ t
-  | .data sym st off b v => "DATA ".toList ++ dataAddr sym st off ++ ['/'] ++ dec b ++ ", ".toList ++ v
-  | .globl sym st ats sz => "GLOBL ".toList ++ symText sym st ++ "(SB), ".toList ++ toksText ats ++ ", $".toList ++ dec sz
-  | .pkg n => "package ".toList ++ n
+  | .icomment t => ['\t', '/', '/', ' '] ++ t
+  | .data sym st off b v => ['D', 'A', 'T', 'A', ' '] ++ dataAddr sym st off ++ ['/'] ++ dec b ++ [',', ' '] ++ v
+  | .globl sym st ats sz => ['G', 'L', 'O', 'B', 'L', ' '] ++ symText sym st ++ ['(', 'S', 'B', ')', ',', ' '] ++ toksText ats ++ [',', ' ', '$'] ++ dec sz
+  | .pkg n => ['p', 'a', 'c', 'k', 'a', 'g', 'e', ' '] ++ n
   | .pragma d as => pragmaText d as
   | .decl s => s
 
@@ -209,7 +214,7 @@ def printNodes : List Node → List Instr → Bool → List SLine
     flushBlock buf ++ ensureClear clear ++ ls.map .icomment ++ printNodes ns [] true
 
 def requiresLine (isa : List Txt) : List SLine :=
-  if isa.isEmpty then [] else [.comment ("Requires: ".toList ++ joinWith ", ".toList isa)]
+  if isa.isEmpty then [] else [.comment (['R', 'e', 'q', 'u', 'i', 'r', 'e', 's', ':', ' '] ++ joinWith [',', ' '] isa)]
 
 def printFunction (names : List (Nat × String)) (f : Function) : List SLine :=
   [.blank, .comment f.stub] ++ requiresLine f.isa ++
@@ -225,10 +230,10 @@ def printSection (names : List (Nat × String)) : Sec → List SLine
 
 /-- `Config.GeneratedWarning`. -/
 def generatedWarning (cfg : Config) : Txt :=
-  "Code generated by ".toList ++
+  ['C', 'o', 'd', 'e', ' ', 'g', 'e', 'n', 'e', 'r', 'a', 't', 'e', 'd', ' ', 'b', 'y', ' '] ++
   (match cfg.argv with
    | none => cfg.name
-   | some a => "command: ".toList ++ joinWith [' '] a) ++ ". DO NOT EDIT.".toList
+   | some a => ['c', 'o', 'm', 'm', 'a', 'n', 'd', ':', ' '] ++ joinWith [' '] a) ++ ['.', ' ', 'D', 'O', ' ', 'N', 'O', 'T', ' ', 'E', 'D', 'I', 'T', '.']
 
 /-- The constraint block: the SAME function of the file for both printers. -/
 def constraintLines (f : File) : List SLine :=
@@ -291,22 +296,22 @@ def isSpaceCh (c : Char) : Bool := c == ' '
 def notParen (c : Char) : Bool := c != '('
 
 def lexTop (t : Txt) : LLine :=
-  match stripPrefix "//".toList t with
+  match stripPrefix ['/', '/'] t with
   | some _ => .top t
   | none =>
-  match stripPrefix "TEXT ·".toList t with
+  match stripPrefix ['T', 'E', 'X', 'T', ' ', '·'] t with
   | some r =>
-    (match stripPrefix "(SB)".toList (r.dropWhile notParen) with
+    (match stripPrefix ['(', 'S', 'B', ')'] (r.dropWhile notParen) with
      | some rest => .text (r.takeWhile notParen) rest
      | none => .other t)
   | none =>
-  match stripPrefix "#include ".toList t with
+  match stripPrefix ['#', 'i', 'n', 'c', 'l', 'u', 'd', 'e', ' '] t with
   | some r => .incl r
   | none =>
-  match stripPrefix "DATA ".toList t with
+  match stripPrefix ['D', 'A', 'T', 'A', ' '] t with
   | some r => .data r
   | none =>
-  match stripPrefix "GLOBL ".toList t with
+  match stripPrefix ['G', 'L', 'O', 'B', 'L', ' '] t with
   | some r => .globl r
   | none => if t.getLast? = some ':' then .label t.dropLast else .other t
 
@@ -315,7 +320,7 @@ def lexLine (t : Txt) : LLine :=
   | [] => .blank
   | c :: r =>
     if c = '\t' then
-      match stripPrefix "// ".toList r with
+      match stripPrefix ['/', '/', ' '] r with
       | some k => .icomment k
       | none => .instr (r.takeWhile notSpace) ((r.dropWhile notSpace).dropWhile isSpaceCh)
     else lexTop t
@@ -331,12 +336,12 @@ def abstract : SLine → LLine
   | .raw t => .top t
   | .incl p => .incl ('"' :: p ++ ['"'])
   | .text n c f a => .text n (textRest c f a)
-  | .instr o s ops _ => .instr (opcodeWithSuffixes o s) (joinWith ", ".toList ops)
+  | .instr o s ops _ => .instr (opcodeWithSuffixes o s) (joinWith [',', ' '] ops)
   | .label l => .label l
   | .icomment t => .icomment t
-  | .data sym st off b v => .data (dataAddr sym st off ++ ['/'] ++ dec b ++ ", ".toList ++ v)
-  | .globl sym st ats sz => .globl (symText sym st ++ "(SB), ".toList ++ toksText ats ++ ", $".toList ++ dec sz)
-  | .pkg n => .other ("package ".toList ++ n)
+  | .data sym st off b v => .data (dataAddr sym st off ++ ['/'] ++ dec b ++ [',', ' '] ++ v)
+  | .globl sym st ats sz => .globl (symText sym st ++ ['(', 'S', 'B', ')', ',', ' '] ++ toksText ats ++ [',', ' ', '$'] ++ dec sz)
+  | .pkg n => .other (['p', 'a', 'c', 'k', 'a', 'g', 'e', ' '] ++ n)
   | .pragma d as => .top (pragmaText d as)
   | .decl s => .other s
 
@@ -405,7 +410,7 @@ def parseFile (ls : List LLine) : Option (List Txt × List SecSum) :=
 
 /-! ### what the file says (the right-hand side of faithfulness) -/
 
-def Instr.key (i : Instr) : Txt × Txt := (i.ows, joinWith ", ".toList i.operands)
+def Instr.key (i : Instr) : Txt × Txt := (i.ows, joinWith [',', ' '] i.operands)
 
 def instrsOf : List Node → List Instr
   | [] => []
@@ -425,8 +430,8 @@ def fnSum (names : List (Nat × String)) (f : Function) : FnSum :=
    (instrsOf f.nodes).map Instr.key, labelsFrom f.nodes 0⟩
 
 def glSum (names : List (Nat × String)) (g : Global) : GlSum :=
-  ⟨g.data.map (fun d => dataAddr g.sym g.static d.off ++ ['/'] ++ dec d.bytes ++ ", ".toList ++ d.value),
-   symText g.sym g.static ++ "(SB), ".toList ++ toksText (asmToks names g.attrs) ++ ", $".toList ++ dec g.size⟩
+  ⟨g.data.map (fun d => dataAddr g.sym g.static d.off ++ ['/'] ++ dec d.bytes ++ [',', ' '] ++ d.value),
+   symText g.sym g.static ++ ['(', 'S', 'B', ')', ',', ' '] ++ toksText (asmToks names g.attrs) ++ [',', ' ', '$'] ++ dec g.size⟩
 
 def secSum (names : List (Nat × String)) : Sec → SecSum
   | .fn f => .fn (fnSum names f)
@@ -455,13 +460,13 @@ def parseSize (t : Txt) : Option (Int × Int) :=
 
 /-- `, $size` or `, attrs, $size` → (attribute text, frame, args). -/
 def parseTextRest (t : Txt) : Option (Option Txt × Int × Int) :=
-  match stripPrefix ", ".toList t with
+  match stripPrefix [',', ' '] t with
   | none => none
   | some r =>
     match r with
     | '$' :: _ => (parseSize r).map (fun p => (none, p.1, p.2))
     | _ =>
-      match stripPrefix ", ".toList (r.dropWhile notComma) with
+      match stripPrefix [',', ' '] (r.dropWhile notComma) with
       | none => none
       | some s => (parseSize s).map (fun p => (some (r.takeWhile notComma), p.1, p.2))
 
